@@ -37,7 +37,10 @@ class TaskHandler:
         self._pending = {}
         self._job_id = 0
         self._lock = threading.Lock()
-        self._accept_lock = threading.Lock()
+        # re-entrant: pool.submit() below is python code of the standard library, which the trace function sees - a tracepoint
+        # that matches it (locations match on the base name: 'thread.py') fires while we hold the lock, and handing over the
+        # snapshot it takes brings the same thread back here
+        self._accept_lock = threading.RLock()
         self._open = True
 
     def _next_id(self):
